@@ -19,74 +19,61 @@ open LP.TT
 
 theorem TT.plusSeconds_eq (t s : Nat) : plusSeconds t s = t + s * 1000000000 := rfl
 
+theorem TT.ite_err_ok {α : Type} {c : Prop} [Decidable c] {e : Err} {x : Except Err α} {r : α}
+    (h : (if c then Except.error e else x) = .ok r) : ¬ c ∧ x = .ok r := by
+  by_cases hc : c
+  · rw [if_pos hc] at h; cases h
+  · rw [if_neg hc] at h; exact ⟨hc, h⟩
+
 theorem TT.boundedOrDefault_ok {start offset : Nat} {req tr : Option Nat}
     (h : boundedOrDefault start offset req = .ok tr) :
     ∃ t, tr = some t ∧ t ≤ start + offset * 1000000000 ∧
       (req = none → t = start + offset * 1000000000) ∧ (∀ x, req = some x → t = x) := by
-  unfold boundedOrDefault at h
   cases req with
   | none =>
-    simp only [plusSeconds, NANOS] at h
+    simp only [boundedOrDefault, plusSeconds, NANOS] at h
     injection h with h
-    exact ⟨_, h.symm, Nat.le_refl _, fun _ => rfl, fun x hx => by cases hx⟩
+    exact ⟨_, h.symm, Nat.le_refl _, fun _ => rfl, fun x hx => (by cases hx)⟩
   | some t =>
-    simp only [plusSeconds, NANOS] at h
-    split at h
-    · cases h
-    · injection h with h
-      refine ⟨t, h.symm, by omega, fun hx => by cases hx, fun x hx => by cases hx; rfl⟩
+    simp only [boundedOrDefault, plusSeconds, NANOS] at h
+    obtain ⟨hc, h⟩ := ite_err_ok h
+    injection h with h
+    exact ⟨t, h.symm, by omega, fun hx => (by cases hx), fun x hx => (by cases hx; rfl)⟩
 
 theorem TT.createTrading_ok_nonbase {fam : Family} {now offset start : Nat} {end_ req tr : Option Nat}
     (hf : fam ≠ .base) (h : createTrading fam now offset start end_ req = .ok tr) :
     ∃ t, tr = some t ∧ t ≤ start + offset * 1000000000 ∧
       (req = none → t = start + offset * 1000000000) ∧ (∀ x, req = some x → t = x) := by
-  unfold createTrading at h
   cases fam with
   | base => exact absurd rfl hf
   | openEdition =>
-    simp only at h
-    split at h
-    · cases h
-    · split at h
-      · cases h
-      · exact boundedOrDefault_ok h
+    simp only [createTrading] at h
+    exact boundedOrDefault_ok (ite_err_ok (ite_err_ok h).2).2
   | vending =>
-    simp only at h
-    split at h
-    · cases h
-    · split at h
-      · cases h
-      · exact boundedOrDefault_ok h
+    simp only [createTrading] at h
+    exact boundedOrDefault_ok (ite_err_ok (ite_err_ok h).2).2
   | tokenMerge =>
-    simp only at h
-    split at h
-    · cases h
-    · split at h
-      · cases h
-      · exact boundedOrDefault_ok h
+    simp only [createTrading] at h
+    exact boundedOrDefault_ok (ite_err_ok (ite_err_ok h).2).2
 
 theorem TT.createTrading_ok_base {now offset start : Nat} {end_ req tr : Option Nat}
     (h : createTrading .base now offset start end_ req = .ok tr) :
     ∃ t, tr = some t ∧ (req = none → t = now + offset * 1000000000) ∧ (∀ x, req = some x → t = x) := by
-  unfold createTrading at h
   cases req with
   | none =>
-    simp only [plusSeconds, NANOS] at h
+    simp only [createTrading, plusSeconds, NANOS] at h
     injection h with h
-    exact ⟨_, h.symm, fun _ => rfl, fun x hx => by cases hx⟩
+    exact ⟨_, h.symm, fun _ => rfl, fun x hx => (by cases hx)⟩
   | some t =>
-    simp only at h
+    simp only [createTrading] at h
     injection h with h
-    exact ⟨t, h.symm, fun hx => by cases hx, fun x hx => by cases hx; rfl⟩
+    exact ⟨t, h.symm, fun hx => (by cases hx), fun x hx => (by cases hx; rfl)⟩
 
 /-- shape of a successful create -/
 theorem TT.create_ok {w w' : World} {kind : CollKind} {creator start : Nat} {end_ req : Option Nat}
     (h : step w (.create kind creator start end_ req) = .ok w') :
     w.mc = none ∧ ∃ tr, createTrading w.family w.now w.offset start end_ req = .ok tr ∧
-      w' = { w with mc := some
-        ({ admin := creator, mintStart := if w.family = .base then 0 else start,
-           endTime := if w.family = .openEdition then end_ else none },
-         Coll.init kind w.minterAddr creator tr) } := by
+      w' = { w with mc := some (mkMinter w.family creator start end_, Coll.init kind w.minterAddr creator tr) } := by
   simp only [step, create] at h
   split at h
   · cases h
@@ -135,16 +122,8 @@ theorem TT.updTrading_ok {w w' : World} {sender funds : Nat} {req : Option Nat}
 theorem TT.tradingUpdateOk_some {fam : Family} {now mintStart offset t : Nat}
     (h : tradingUpdateOk fam now mintStart offset (some t) = true) :
     now ≤ t ∧ (fam ≠ .base → t ≤ mintStart + offset * 1000000000) := by
-  simp only [tradingUpdateOk] at h
-  split at h
-  · cases h
-  · rename_i hnow
-    split at h
-    · cases h
-    · rename_i hb
-      refine ⟨by omega, fun hf => ?_⟩
-      simp only [plusSeconds, NANOS, Bool.and_eq_true, bne_iff_ne, ne_eq, decide_eq_true_eq, not_and, Nat.not_lt] at hb
-      exact hb hf
+  simp [tradingUpdateOk, plusSeconds, NANOS] at h
+  exact ⟨h.1, fun hf => h.2.resolve_left hf⟩
 
 theorem TT.tradingUpdateOk_iff (fam : Family) (now mintStart offset : Nat) (req : Option Nat) :
     tradingUpdateOk fam now mintStart offset req = true ↔
@@ -158,15 +137,11 @@ theorem TT.tradingUpdateOk_iff (fam : Family) (now mintStart offset : Nat) (req 
     | none => rfl
     | some t =>
       obtain ⟨h1, h2⟩ := h t rfl
-      simp only [tradingUpdateOk]
-      have : ¬ now > t := by omega
-      simp only [this, if_false]
+      simp [tradingUpdateOk, plusSeconds, NANOS]
+      refine ⟨h1, ?_⟩
       by_cases hf : fam = .base
-      · subst hf; simp
-      · have := h2 hf
-        simp only [plusSeconds, NANOS]
-        have : ¬ t > mintStart + offset * 1000000000 := by omega
-        simp [this]
+      · exact .inl hf
+      · exact .inr (h2 hf)
 
 /-! ## Clause 1 — creation: bound and default
 
@@ -183,8 +158,9 @@ theorem C19_create_bound (w w' : World) (kind : CollKind) (creator start : Nat) 
   obtain ⟨_, tr, htr, hw'⟩ := create_ok h
   obtain ⟨t, rfl, hb, hd, hx⟩ := createTrading_ok_nonbase hfam htr
   subst hw'
-  refine ⟨_, _, t, rfl, rfl, ?_, hb, hd, hx, rfl, rfl, rfl, rfl⟩
-  simp [hfam]
+  refine ⟨mkMinter w.family creator start end_, Coll.init kind w.minterAddr creator (some t), t, rfl, rfl, ?_, hb, hd, hx,
+    rfl, rfl, rfl, rfl⟩
+  simp [mkMinter, hfam]
 
 /-- a creation request one nanosecond (or more) past the bound is refused, whatever else is supplied -/
 theorem C19_create_rejects_past_bound (w : World) (kind : CollKind) (creator start t : Nat) (end_ : Option Nat)
@@ -208,7 +184,8 @@ theorem C19_create_default_base (w w' : World) (kind : CollKind) (creator start 
   rw [hfam] at htr
   obtain ⟨t, rfl, hd, hx⟩ := createTrading_ok_base htr
   subst hw'
-  exact ⟨_, _, t, rfl, rfl, hd, hx, rfl, rfl, rfl⟩
+  exact ⟨mkMinter w.family creator start end_, Coll.init kind w.minterAddr creator (some t), t, rfl, rfl, hd, hx,
+    rfl, rfl, rfl⟩
 
 /-! ## Clause 2 — update: `now ≤ t ≤ currentMintStart + currentOffset` (base: `now ≤ t`)
 
@@ -369,14 +346,14 @@ theorem TT.validWrite_of_step {w w' : World} {op : Op} (hw : op.isWrite = true) 
     obtain ⟨m, c, hmc, _, hs, hok, _, _, hw'⟩ := updTrading_ok h
     refine ⟨m, c, hmc, hs, ?_, (tradingUpdateOk_iff _ _ _ _ _).1 hok⟩
     subst hw'; rfl
-  | setTime _ => cases hw
-  | sudoOffset _ => cases hw
-  | updStart .. => cases hw
-  | updEnd .. => cases hw
-  | collTrading .. => cases hw
-  | collCreator .. => cases hw
-  | collFreeze .. => cases hw
-  | collOwn .. => cases hw
+  | setTime _ => simp [Op.isWrite] at hw
+  | sudoOffset _ => simp [Op.isWrite] at hw
+  | updStart _ _ _ => simp [Op.isWrite] at hw
+  | updEnd _ _ _ => simp [Op.isWrite] at hw
+  | collTrading _ _ => simp [Op.isWrite] at hw
+  | collCreator _ _ => simp [Op.isWrite] at hw
+  | collFreeze _ => simp [Op.isWrite] at hw
+  | collOwn _ _ => simp [Op.isWrite] at hw
 
 theorem TT.onColl_ok {w w' : World} {f : Coll → Except Err Coll} (h : onColl w f = .ok w') :
     ∃ m c c', w.mc = some (m, c) ∧ f c = .ok c' ∧ w' = { w with mc := some (m, c') } := by
@@ -535,8 +512,8 @@ theorem C19_frame (w w' : World) (op : Op) (hinv : OwnerInv w) (hext : op.Extern
   cases op with
   | setTime t => simp only [step] at h; injection h with h; subst h; rfl
   | sudoOffset v => simp only [step] at h; injection h with h; subst h; rfl
-  | create .. => cases hw
-  | updTrading .. => cases hw
+  | create _ _ _ _ _ => simp [Op.isWrite] at hw
+  | updTrading _ _ _ => simp [Op.isWrite] at hw
   | updStart s t f =>
     obtain ⟨m, c, hmc, hw'⟩ := updStart_ok h
     subst hw'; simp [visible, hmc]
@@ -656,6 +633,12 @@ theorem C19_validated (w0 : World) (ops : List Op) (h0 : w0.mc = none)
   · left; rw [hl]; simp [visible, h0]
   · exact .inr hr
 
+theorem TT.getLast?_getD_cons {α : Type} (a : α) (l : List α) (x y : α) :
+    ((a :: l).getLast?).getD x = ((a :: l).getLast?).getD y := by
+  induction l generalizing a with
+  | nil => rfl
+  | cons b l ih => rw [List.getLast?_cons_cons]; exact ih b
+
 /-- the values stored by the validated writes of a history, oldest first (`none` entry = trading time cleared) -/
 def TT.validatedHistory (w : World) : List Op → List (Option (Option Nat))
   | [] => []
@@ -689,7 +672,7 @@ theorem C19_validated_history (w : World) (ops : List Op) (hinv : OwnerInv w)
         rw [ih1]
         cases hl : validatedHistory w1 ops with
         | nil => simp
-        | cons a l => simp [List.getLast?_cons_cons]
+        | cons a l => rw [List.getLast?_cons_cons]; exact getLast?_getD_cons a l _ _
       · have hw' : op.isWrite = false := by simpa using hw
         simp only [hw', Bool.false_eq_true, if_false]
         rw [ih1, C19_frame w w1 op hinv (hext op List.mem_cons_self) hw' h]
@@ -708,25 +691,25 @@ def created (tr : Nat) : World :=
   { w0 with mc := some ({ admin := 10, mintStart := start, endTime := none }, Coll.init .base 1001 10 (some tr)) }
 
 -- creation without a trading time stores exactly mint start + offset; at the bound it is accepted, one ns later refused
-example : step w0 (.create .base 10 start none none) = .ok (created bound) := by decide
-example : step w0 (.create .base 10 start none (some bound)) = .ok (created bound) := by decide
-example : step w0 (.create .base 10 start none (some (bound + 1))) = .error .invalid := by decide
+example : step w0 (.create .base 10 start none none) = .ok (created bound) := by rfl
+example : step w0 (.create .base 10 start none (some bound)) = .ok (created bound) := by rfl
+example : step w0 (.create .base 10 start none (some (bound + 1))) = .error .invalid := by rfl
 -- update at now / at the bound accepted, now−1 / bound+1 refused, stranger refused, funds refused
-example : step (created bound) (.updTrading 10 (some (g + 5000000000)) 0) = .ok (created (g + 5000000000)) := by decide
-example : step (created 7) (.updTrading 10 (some bound) 0) = .ok (created bound) := by decide
-example : step (created bound) (.updTrading 10 (some (g + 4999999999)) 0) = .error .invalid := by decide
-example : step (created bound) (.updTrading 10 (some (bound + 1)) 0) = .error .invalid := by decide
-example : step (created bound) (.updTrading 20 (some bound) 0) = .error .unauthorized := by decide
-example : step (created bound) (.updTrading 10 (some bound) 1) = .error .payment := by decide
+example : step (created bound) (.updTrading 10 (some (g + 5000000000)) 0) = .ok (created (g + 5000000000)) := by rfl
+example : step (created 7) (.updTrading 10 (some bound) 0) = .ok (created bound) := by rfl
+example : step (created bound) (.updTrading 10 (some (g + 4999999999)) 0) = .error .invalid := by rfl
+example : step (created bound) (.updTrading 10 (some (bound + 1)) 0) = .error .invalid := by rfl
+example : step (created bound) (.updTrading 20 (some bound) 0) = .error .unauthorized := by rfl
+example : step (created bound) (.updTrading 10 (some bound) 1) = .error .payment := by rfl
 -- direct call to the collection by the admin himself: refused
-example : step (created bound) (.collTrading 10 (some 5)) = .error .unauthorized := by decide
+example : step (created bound) (.collTrading 10 (some 5)) = .error .unauthorized := by rfl
 -- governance lowers the offset afterwards: the stored value stays (now above the *new* bound), and the new bound applies
-example : visible (run w0 [.create .base 10 start none none, .sudoOffset (some 1)]) = some (some bound) := by decide
+example : visible (run w0 [.create .base 10 start none none, .sudoOffset (some 1)]) = some (some bound) := by rfl
 example : step (run w0 [.create .base 10 start none none, .sudoOffset (some 1)]) (.updTrading 10 (some bound) 0)
-    = .error .invalid := by decide
+    = .error .invalid := by rfl
 -- the mint start is moved earlier: the stored value stays, the bound moves
 example : visible (run w0 [.create .base 10 start none none, .updStart 10 (start - 1000000000) 0]) = some (some bound) := by
-  decide
+  rfl
 -- hypotheses of C19_validated are satisfiable with a non-trivial history
 example : w0.mc = none ∧ ∀ op ∈ [Op.create .base 10 start none none, .collTrading 20 (some 1), .updTrading 10 (some bound) 0],
     op.External w0.minterAddr := by
